@@ -55,6 +55,7 @@ fn classify<F: Float>(c: &Case, pr: &Prep<F>, obs: &mut Obs) -> (bool, bool) {
         Tol::T1e1 => "tol_1e-1",
     });
     obs.class_if(c.data.scale_exp != 0, "scaled_2^+-10");
+    obs.class_if(c.data.offset.iter().any(|v| *v != 0.0), "offset_from_origin");
     obs.class_if(pr.p == 1, "one_feature");
     obs.class_if(c.k == 1, "k_eq_1");
     obs.class_if(c.k == pr.n, "k_eq_n");
@@ -72,7 +73,7 @@ fn classify<F: Float>(c: &Case, pr: &Prep<F>, obs: &mut Obs) -> (bool, bool) {
 fn hull_of<F: Float>(pr: &Prep<F>, init: &Init) -> M64 {
     let mut h = pr.x64.clone();
     if let Init::Precomputed(c0) = init {
-        let c0f: Vec<Vec<F>> = conv_rows(c0, pr.scale_exp);
+        let c0f: Vec<Vec<F>> = conv_rows(c0, &pr.xf_);
         let c064 = to64(&c0f);
         let (lo, hi) = bbox(&pr.x64, pr.p);
         let inside = c064.iter().all(|r| (0..pr.p).all(|j| r[j] >= lo[j] && r[j] <= hi[j]));
@@ -107,7 +108,7 @@ fn assign_impl<F: Float, D: Distance<F>>(c: &Case, obs: &mut Obs, dist: D) {
         return;
     }
     let s_train = check_assignment(obs, &pr, c.metric, &f, &pr.xf, "training");
-    let fresh: Vec<Vec<F>> = conv_rows(&c.queries, pr.scale_exp);
+    let fresh: Vec<Vec<F>> = conv_rows(&c.queries, &pr.xf_);
     let s_fresh = check_assignment(obs, &pr, c.metric, &f, &fresh, "fresh");
     // adversarial queries derived from the fitted model: every centroid and every midpoint of two
     let mut adv: Vec<Vec<F>> = f.cent.clone();
@@ -160,7 +161,7 @@ fn trajectory_impl<F: Float, D: Distance<F>>(c: &Case, obs: &mut Obs, dist: D) {
     let n = pr.n as f64;
     let rec_tol = (n + 64.0) * pr.eps * scale + 16.0 * pr.tiny;
 
-    let mut prev: Vec<Vec<F>> = conv_rows(c0rows, pr.scale_exp);
+    let mut prev: Vec<Vec<F>> = conv_rows(c0rows, &pr.xf_);
     let mut prev64 = to64(&prev);
     let mut state = Run::Running;
     let mut prev_assign: Option<Vec<usize>> = None;
@@ -200,32 +201,84 @@ fn trajectory_impl<F: Float, D: Distance<F>>(c: &Case, obs: &mut Obs, dist: D) {
         let near: Vec<Nearest> = (0..pr.n).map(|i| nearest(c.metric, pr.eps, pr.tiny, &pr.x64[i], &pr.xf[i], &prev64, &prev)).collect();
         tie_seen |= near.iter().any(|x| x.exact_tie);
         if near.iter().all(|x| x.determined()) {
-            let assign: Vec<usize> = near.iter().map(|x| x.first).collect();
-            let want = step(&pr.x64, &prev64, &assign);
-            let mut worst = 0.0f64;
-            let mut at = (0, 0);
-            for a in 0..c.k {
-                for j in 0..pr.p {
-                    let d = (want[a][j] - f.cent64[a][j]).abs();
-                    if !(d <= worst) {
-                        worst = d;
-                        at = (a, j);
+            // tie-agnostic: the statement does not say which of several exactly equidistant
+            // centroids receives a point. Candidate assignments: all combinations when at most 4
+            // points are tied (<= 256 combinations), otherwise the lowest-index and the
+            // highest-index convention only (then a mismatch is "not judged", not a failure).
+            let tied: Vec<usize> = (0..pr.n).filter(|&i| !near[i].unique()).collect();
+            let base: Vec<usize> = near.iter().map(|x| x.first).collect();
+            let combos: usize = tied.iter().fold(1usize, |acc, &i| acc.saturating_mul(near[i].near.len().max(1)));
+            let exhaustive = tied.len() <= 4 && combos <= 256;
+            let mut candidates: Vec<Vec<usize>> = vec![];
+            if tied.is_empty() {
+                candidates.push(base.clone());
+            } else if exhaustive {
+                for mut code in 0..combos {
+                    let mut a = base.clone();
+                    for &i in &tied {
+                        let opts = &near[i].near;
+                        a[i] = opts[code % opts.len()];
+                        code /= opts.len();
+                    }
+                    candidates.push(a);
+                }
+            } else {
+                candidates.push(base.clone());
+                let mut last = base.clone();
+                for &i in &tied {
+                    last[i] = *near[i].near.last().unwrap_or(&base[i]);
+                }
+                candidates.push(last);
+            }
+            let mut best: Option<(f64, (usize, usize), M64, Vec<usize>)> = None;
+            for a in candidates {
+                let want = step(&pr.x64, &prev64, &a);
+                let mut worst = 0.0f64;
+                let mut at = (0, 0);
+                for ci in 0..c.k {
+                    for j in 0..pr.p {
+                        let d = (want[ci][j] - f.cent64[ci][j]).abs();
+                        if !(d <= worst) {
+                            worst = d;
+                            at = (ci, j);
+                        }
                     }
                 }
-            }
-            steps_judged += 1;
-            obs.ensure(worst <= rec_tol, "trajectory:step-mismatch", || {
-                format!(
-                    "budget {m}: centroid {} coordinate {} is {:e}; mean of its assigned points and its previous position {:?} gives {:e} (tolerance {rec_tol:e}); previous centroids {:?}",
-                    at.0, at.1, f.cent64[at.0][at.1], prev64[at.0], want[at.0][at.1], prev64
-                )
-            });
-            if let Some(pa) = &prev_assign {
-                if *pa != assign {
-                    changes += 1;
+                let better = match &best {
+                    None => true,
+                    Some((w, ..)) => worst < *w,
+                };
+                if better {
+                    best = Some((worst, at, want, a));
+                }
+                if worst <= rec_tol {
+                    break;
                 }
             }
-            prev_assign = Some(assign);
+            if let Some((worst, at, want, assign)) = best {
+                if worst <= rec_tol {
+                    steps_judged += 1;
+                    if let Some(pa) = &prev_assign {
+                        if *pa != assign {
+                            changes += 1;
+                        }
+                    }
+                    prev_assign = Some(assign);
+                } else if tied.is_empty() || exhaustive {
+                    steps_judged += 1;
+                    obs.fail(
+                        "trajectory:step-mismatch",
+                        format!(
+                            "budget {m}: centroid {} coordinate {} is {:e}; mean of its assigned points and its previous position {:?} gives {:e} (tolerance {rec_tol:e}; closest of {} admissible assignments of the {} exactly tied points); previous centroids {:?}",
+                            at.0, at.1, f.cent64[at.0][at.1], prev64[at.0], want[at.0][at.1], combos.max(1), tied.len(), prev64
+                        ),
+                    );
+                    prev_assign = None;
+                } else {
+                    obs.class("exact_tie_step_not_judged");
+                    prev_assign = None;
+                }
+            }
         } else {
             obs.class("near_tie_step_not_judged");
             prev_assign = None;
@@ -399,7 +452,7 @@ fn large_impl<F: Float, D: Distance<F>>(c: &LargeCase, obs: &mut Obs, dist: D) {
         obs.skip("degenerate_case");
         return;
     }
-    let data = Data { kind: DataKind::Blobs, f32_: c.f32_, scale_exp: 0, rows: large_rows(c) };
+    let data = Data { kind: DataKind::Blobs, f32_: c.f32_, scale_exp: 0, offset: vec![], rows: large_rows(c) };
     let pr = prep::<F>(&data);
     let init = match c.init_kind {
         0 => Init::Random,
